@@ -117,7 +117,16 @@ def r1(F, R):
             continue
         site = "%s @%s" % (b.path, b.loc())
         h = b.hir["value"]
-        stmts = h.get("stmts", []) if h.get("k") == "Block" else []
+        stmts = list(h.get("stmts", [])) if h.get("k") == "Block" else []
+        # the kernel may live in a helper that was spliced in (source-level inlining): its statements follow the argument bindings
+        tail = h.get("expr") if h.get("k") == "Block" else None
+        for _ in range(3):
+            tail = K.peel(tail) if isinstance(tail, dict) else None
+            if isinstance(tail, dict) and tail.get("k") == "Block":
+                stmts += list(tail.get("stmts", []))
+                tail = tail.get("expr")
+            else:
+                break
         # find the last `for p in momentum.iter_mut() { *p *= inv }` and the definition of inv
         last_scale = None
         for st in stmts:
@@ -144,6 +153,17 @@ def r1(F, R):
                     upd_before = any(any(y.get("k") == "Assign" for y in hir_walk(s3)) for s3 in stmts[:pos_norm])
                     if "sqrt" in ntxt and "sum" in ntxt and "/" in txt and upd_before and stmts.index(st) > pos_norm:
                         okk = True
+                # fused form: inv = 1.0 / acc.sqrt() with `acc += raw * raw` in the loop that stores `*p = raw`
+                if not okk and "sqrt" in txt and "/" in txt:
+                    for aid in [K.local_id(y) for y in hir_walk(d["init"]) if y.get("k") == "Path" and K.local_id(y) in defs]:
+                        for s3 in stmts[:stmts.index(st)]:
+                            accs = [y for y in hir_walk(s3) if y.get("k") == "AssignOp" and y.get("op", "").startswith("+") and K.local_id(y["l"]) == aid]
+                            stores = [y for y in hir_walk(s3) if y.get("k") == "Assign"]
+                            for a_ in accs:
+                                r_ = K.peel(a_["r"])
+                                if r_.get("k") == "Binary" and r_.get("op") == "*" and K.local_id(r_["a"]) is not None and K.local_id(r_["a"]) == K.local_id(r_["b"]):
+                                    if any(K.local_id(y["r"]) == K.local_id(r_["a"]) for y in stores):
+                                        okk = True
         if okk:
             n += 1
             R.ok("C18-R1", b.path + ":renormalise", site, "ESH update ends with p *= 1/sqrt(sum p^2) over the updated momentum")
